@@ -2,6 +2,7 @@ package main
 
 import (
 	"fmt"
+	"strings"
 	"go/ast"
 	"go/token"
 	"go/types"
@@ -550,6 +551,8 @@ func (c *Ctx) typeTag(t types.Type) int {
 func (c *Ctx) modifiedIn(env *Env, nodes []ast.Node) (vars map[types.Object]bool, heapAll bool, fields map[string]bool) {
 	vars = map[types.Object]bool{}
 	fields = map[string]bool{}
+	c.lastDirect = map[string][]types.Object{}
+	c.lastIndirect = map[string]bool{}
 	var markLhs func(e ast.Expr)
 	markLhs = func(e ast.Expr) {
 		switch x := unparen(e).(type) {
@@ -562,6 +565,14 @@ func (c *Ctx) modifiedIn(env *Env, nodes []ast.Node) (vars map[types.Object]bool
 			if t := env.pkg.info.TypeOf(x.X); t != nil {
 				if _, _, isPtr := structOf(env.subst(t)); isPtr {
 					fields[x.Sel.Name] = true
+					// remember the written object when it is a plain variable
+					if id, ok := unparen(x.X).(*ast.Ident); ok && c.modDepth == 0 {
+						if o := env.resolveIdent(id); o != nil {
+							c.lastDirect[x.Sel.Name] = append(c.lastDirect[x.Sel.Name], o)
+							return
+						}
+					}
+					c.lastIndirect[x.Sel.Name] = true
 					return
 				}
 			}
@@ -623,6 +634,7 @@ func (c *Ctx) callMayWriteHeap(env *Env, x *ast.CallExpr, fields map[string]bool
 				return true
 			}
 			fields[f] = true
+			c.lastIndirect[f] = true
 		}
 		return false
 	}
@@ -633,10 +645,13 @@ func (c *Ctx) callMayWriteHeap(env *Env, x *ast.CallExpr, fields map[string]bool
 			return true
 		}
 		c.modDepth++
+		sd, si := c.lastDirect, c.lastIndirect
 		_, all, fs := c.modifiedIn(sub, []ast.Node{fi.Decl.Body})
 		c.modDepth--
+		c.lastDirect, c.lastIndirect = sd, si
 		for f := range fs {
 			fields[f] = true
+			c.lastIndirect[f] = true
 		}
 		return all
 	}
@@ -653,7 +668,26 @@ func (c *Ctx) havocLoopTargets(env *Env, st *State, nodes []ast.Node) {
 	}
 	for _, k := range sortedKeys(st.heap) {
 		_, f, _ := cutLast(k, ".")
+		f = strings.TrimPrefix(f, "$")
 		if all || fields[f] {
+			// a field only written through unmodified pointer variables is havoced at those objects only
+			if !all && !c.lastIndirect[f] && len(c.lastDirect[f]) > 0 {
+				targeted := true
+				h := st.heap[k]
+				for _, o := range c.lastDirect[f] {
+					v, ok := st.vars[o]
+					if !ok || vars[o] || v.T == "" {
+						targeted = false
+						break
+					}
+					// only objects of the struct this heap key belongs to
+					h = app("store", h, v.T, c.fresh("loop_"+f, c.heapSorts[k]))
+				}
+				if targeted {
+					st.heap[k] = h
+					continue
+				}
+			}
 			st.heap[k] = c.fresh("H'"+k, fmt.Sprintf("(Array Int %s)", c.heapSorts[k]))
 		}
 	}
